@@ -1,12 +1,20 @@
 """C05 — keyed redistribution: the default partitioner against the Lean murmur3/partition model;
 exhaustive over 8/16-bit keys; assignments compared across two OS processes."""
+import sys, os
+sys.path.insert(0, os.path.dirname(os.path.dirname(os.path.abspath(__file__))))
 PID = "C05"
-SUBS = ["C05range", "C05"]
+CASE_LIMIT = {"C05": 15, "C05range": 15}   # seconds: these cases are function calls, not sessions
+SUBS = ["C05range", "C05", "C05e2e"]
+PARALLEL = {"C05e2e": 8}
 RULE = ("C05range: every key of int8/uint8 (quick) and int16/uint16 (thorough; quick samples 4 shard counts) for shard counts "
         "1..17, each compared with the Lean model (exhaustive over the key range); C05: random frames over all key kinds "
         "(ints of every width, uint, uintptr, string, []byte, bool, struct{}, float32/64 incl. +0/-0 and negatives), "
         "1..3-column prefixes, view offsets 0..5, shard counts 1..64, two seeds; every case is additionally run in a "
-        "second, separately started process and the two outputs must be identical; non-trivial = at least two rows")
+        "second, separately started process and the two outputs must be identical; C05e2e: every keyed operator (reduce, "
+        "fold, cogroup, reshuffle on 1- and 2-column prefixes, reshard, repartition) over sources, pipelines and results of "
+        "earlier invocations (bare and re-prefixed), 1..5 shards, 3..300 rows, on the local executor and on clusters "
+        "(vector sizes 1, 2, 128): the rows of every output shard are compared with the shard the Lean partition model "
+        "prescribes for their key; non-trivial = at least two rows")
 TRUST = ["spaolacci/murmur3 Sum32WithSeed is re-implemented in Lean (BS.Hash.murmur3) and compared on every case"]
 ASSUMPTIONS = ["NaN keys are out of scope (as the property says)", "floats are quarter-integers m/4, |m| < 2^20, and the two zeros"]
 EXTRA_TARGETS = ()
@@ -44,7 +52,48 @@ def val(r, k):
     raise ValueError(k)
 
 
+KEYED = ["reduce %s add", "fold %s", "cogroup %s %s", "reshuffle %s", "reshuffle2 %s", "reshard %s 3", "reshard %s 2",
+         "repartition %s byval"]
+E2E_CFGS = ["local", "local CH1", "bm M2 P4", "bm M1 P3 CH2", "bm M3 P3 CH1", "bm M2 P2 CH128"]
+
+
+def gen_e2e(r, tier):
+    """keyed operators end to end, judged shard by shard (the C12 driver: rows of shard p = rows whose key the model sends
+    to p)"""
+    import progen
+    n = 6 if tier == "quick" else 120
+    for op in KEYED:
+        for feed in ("src", "pipe", "result", "presult", "twostage"):
+            for _ in range(n if feed != "src" else max(2, n // 2)):
+                nsh = r.rng(1, 5)
+                rows = progen.rows(r, 150 if r.chance(1, 4) else 24, keys=r.choice([3, 8, 40]))
+                src = "N0=const %d %s" % (nsh, rows) if r.chance(2, 3) else "N0=reader %d %d %s" % (nsh, r.rng(1, 5), rows)
+                cfg = r.choice(E2E_CFGS)
+                k = op.count("%s")
+                if feed == "src":
+                    yield "%s ;; run %s ; N1=%s ; OUT N1" % (cfg, src, op % (("N0",) * k))
+                elif feed == "pipe":
+                    yield "%s ;; run %s ; N1=map N0 %s ; N2=filter N1 %s ; N3=%s ; OUT N3" % (
+                        cfg, src, r.choice(["inc", "swap", "mod5", "id"]), r.choice(["all", "vodd", "kmod3"]), op % (("N2",) * k))
+                elif feed == "result":
+                    yield "%s ;; run %s ; OUT N0 ;; run N0=%s ; OUT N0" % (cfg, src, op % (("R0",) * k))
+                elif feed == "presult":
+                    # the result re-prefixed to two key columns (a Reshuffle then places by both), then keyed again
+                    second = "N0=reshuffle2 R0 ; N1=map N0 qid ; N2=%s ; OUT N2" % (op % (("N1",) * k))
+                    if op.startswith("reshuffle2"):
+                        second = "N0=reshuffle2 R0 ; N1=map N0 qinc ; OUT N1"
+                    yield "%s ;; run %s ; N1=map N0 swap ; OUT N1 ;; run %s" % (cfg, src, second)
+                else:
+                    if op.startswith("reshuffle2"):
+                        yield "%s ;; run %s ; N1=reshuffle2 N0 ; N2=map N1 pinc ; N3=reshuffle2 N2 ; N4=map N3 qid ; OUT N4" % (cfg, src)
+                    else:
+                        yield "%s ;; run %s ; N1=reshuffle N0 ; N2=map N1 mod5 ; N3=%s ; OUT N3" % (cfg, src, op % (("N2",) * k))
+
+
 def gen(r, tier, sub):
+    if sub == "C05e2e":
+        yield from gen_e2e(r, tier)
+        return
     if sub == "C05range":
         for kind, lo, hi in (("i8", -128, 127), ("u8", 0, 255)):
             for n in range(1, 18):
@@ -65,6 +114,8 @@ def gen(r, tier, sub):
 
 
 def nontrivial(case, obs):
+    if ";;" in case:
+        return case.count(":") >= 2
     return case.startswith("R") or case.count(";") >= 2
 
 
